@@ -148,3 +148,36 @@ Proof.
   assert (L : length written = length (written ++ rest)) by (rewrite <- H; reflexivity).
   rewrite app_length in L. destruct rest; [reflexivity|cbn in L; lia].
 Qed.
+
+(* ---------- at any moment; a failing destination ---------- *)
+
+Lemma prefix_b_app p r : prefix_b p (p ++ r) = true.
+Proof. induction p as [|x p IH]; [reflexivity|]. cbn [app prefix_b]. rewrite N.eqb_refl. exact IH. Qed.
+
+Lemma prefix_b_sound p : forall l, prefix_b p l = true -> exists r, l = p ++ r.
+Proof.
+  induction p as [|x p IH]; intros l H; [exists l; reflexivity|].
+  destruct l as [|y l]; [discriminate|]. cbn [prefix_b] in H. apply andb_prop in H. destruct H as [E H].
+  apply N.eqb_eq in E. subst y. destruct (IH l H) as (r & ->). exists r. reflexivity.
+Qed.
+
+(* C06_written_is_prefix_always: in EVERY state an execution reaches (not only when Run has returned -
+   at any instant at which the process may be stopped), whatever the destination holds, and whatever
+   a destination that failed after n bytes holds, is a prefix of the encodings of the accepted samples
+   in queue order: no foreign byte, nothing twice, nothing out of order; what is missing is exactly
+   what is still buffered or queued. *)
+Theorem written_is_prefix_always (A : Type) (enc : A -> option (list N)) (k : kind) (Q : nat) d old h s n :
+  run A enc k Q (init A) h = Some s ->
+  reports_first A false h = true ->
+  Forall (enc_ok A enc) (reports_of A h) ->
+  enc_all A enc (acc_log s) = sink s ++ buf s ++ enc_all A enc (queue s)
+  /\ (exists rest, opened d old ++ enc_all A enc (acc_log s) = content d old s ++ rest)
+  /\ prefix_b (failing n (sink s)) (enc_all A enc (acc_log s)) = true.
+Proof.
+  intros H Ho He.
+  pose proof (run_inv A enc k Q h (init A) s H (inv_init A enc k Q) Ho He) as I.
+  pose proof (inv_bytes A enc k Q s I) as Eb.
+  split; [exact Eb|]. split.
+  - exists (buf s ++ enc_all A enc (queue s)). unfold content. rewrite Eb, <- app_assoc. reflexivity.
+  - rewrite Eb. unfold failing. rewrite <- (firstn_skipn n (sink s)) at 2. rewrite <- app_assoc. apply prefix_b_app.
+Qed.
